@@ -362,7 +362,9 @@ CHECKS['C09'] = dict(
          'theorem\'s hypotheses are evaluated by the second driver and its conclusion checked on the real renderer. The fragment '
          'has grown by further files: fenced and indented code blocks (Props/C09_Code.lean), bullet and ordered lists in normal '
          'form nested to any depth (Props/C09_Lists.lean), setext headings at top level and HTML blocks of start condition 6 / 7 '
-         '(Props/C09_Setext.lean) - each with its own re-check on the real renderer (c09.theorem.code / .lists / .setext). Everything '
+         '(Props/C09_Setext.lean), INLINE MARKUP: one-line paragraphs holding emphasis, strong emphasis and backslash escapes of '
+         'the C06 alphabet - the Markdown rendering of the inline tokens is the source text (Props/C09_Emph.lean) - each with its own '
+         're-check on the real renderer (c09.theorem.code / .lists / .setext / .emph). Everything '
          'outside the fragment (other block and inline constructs, documents not in normal form) is decided by round-trip '
          'exploration of the three clauses on generated documents and the spec corpus; the spec examples that fail today are '
          'listed individually as known findings.',
